@@ -147,13 +147,20 @@ impl CacheKey for RowIdIndexKey {
 #[derive(Debug)]
 pub struct RowIdSequenceKey {
     pub fragment_id: u64,
+    /// Path of the fragment's first data file.  Fragment ids start over after an
+    /// overwrite (and can be handed out again after a restore), so the id alone does not
+    /// identify a fragment over the lifetime of a table; data file names are never reused.
+    pub data_file: String,
 }
 
 impl CacheKey for RowIdSequenceKey {
     type ValueType = RowIdSequence;
 
     fn key(&self) -> Cow<'_, str> {
-        Cow::Owned(format!("row_id_sequence/{}", self.fragment_id))
+        Cow::Owned(format!(
+            "row_id_sequence/{}/{}",
+            self.fragment_id, self.data_file
+        ))
     }
 }
 
